@@ -118,9 +118,14 @@ func IsPhaseConflictError(err error) bool {
 //nolint:errname
 type eConflict struct {
 	error
+	resource resource.Pointer
 }
 
 func (eConflict) ConflictError() {}
+
+func (e eConflict) GetResource() resource.Pointer {
+	return e.resource
+}
 
 //nolint:errname
 type ePhaseConflict struct {
@@ -133,7 +138,8 @@ func (ePhaseConflict) PhaseConflictError() {}
 func errPhaseConflict(r resource.Reference, expectedPhase resource.Phase) error {
 	return ePhaseConflict{
 		eConflict{
-			fmt.Errorf("resource %s is not in phase %s", r, expectedPhase),
+			error:    fmt.Errorf("resource %s is not in phase %s", r, expectedPhase),
+			resource: r,
 		},
 	}
 }
